@@ -98,6 +98,7 @@ type c17Obs struct {
 	Salt              string    `json:"salt,omitempty"`
 	Digest            string    `json:"digest,omitempty"`
 	Marshalled        string    `json:"marshalled,omitempty"`
+	ZeroOK            bool      `json:"zero_ok"`
 	Exact             int       `json:"exact"`
 	Restart           int       `json:"restart"`
 	Near              []nearObs `json:"near,omitempty"`
@@ -268,7 +269,8 @@ func runCipher(in c17Input) c17Case {
 	copy(ck[:], unhx(in.Key))
 	ct, err := ck.Encrypt(pt)
 	if err != nil {
-		o.add("encrypt_failed")
+		// nothing to judge; the correspondence flags the case (no ciphertext)
+		cs.Tags = append(cs.Tags, "encrypt_error")
 		cs.Oracle = o.kinds
 		return cs
 	}
@@ -319,7 +321,7 @@ func runCipher(in c17Input) c17Case {
 	for i := 0; i < 7; i++ {
 		c2, err := ck.Encrypt(pt)
 		if err != nil {
-			o.add("encrypt_failed")
+			cs.Tags = append(cs.Tags, "encrypt_error")
 			break
 		}
 		obs.NEncrypts++
@@ -487,8 +489,10 @@ func runPass(in c17Input, allBits bool) c17Case {
 	}
 	// Zero, then the creating passphrase
 	sk.Zero()
-	if !bytes.Equal(sk.Key[:], make([]byte, 32)) {
-		o.add("zero_left_key_bytes")
+	// wiping is C05's subject: observed and compared with the model only
+	obs.ZeroOK = bytes.Equal(sk.Key[:], make([]byte, 32))
+	if !obs.ZeroOK {
+		cs.Tags = append(cs.Tags, "zero_left_key_bytes")
 	}
 	c, _ := derive(sk, pw)
 	obs.Calls++
@@ -551,7 +555,8 @@ func runPass(in c17Input, allBits bool) c17Case {
 		}
 		obs.Lens = append(obs.Lens, [2]int{L, c})
 		if L != len(m) && err == nil {
-			o.add("wrong_length_params_accepted")
+			// not demanded by the property text: compared with the model only
+			cs.Tags = append(cs.Tags, "wrong_length_params_accepted")
 		}
 		if L == len(m) && err != nil {
 			o.add("marshal_roundtrip_mismatch")
@@ -759,7 +764,8 @@ func runMgr(e *mgrEnv, in c17Input) (c17Case, error) {
 	dec := func(b []byte) ([]byte, error) { return e.mgr.Decrypt(kt, b) }
 	tamper(ct, pt, dec, clsMgr, refusal, obs, &o)
 	if refusal && obs.RT != clsLocked {
-		o.add("locked_manager_decrypted")
+		// lock state is C05's subject: compared with the model only
+		cs.Tags = append(cs.Tags, "locked_manager_decrypted")
 	}
 	for _, other := range []waddrmgr.CryptoKeyType{waddrmgr.CKTPrivate, waddrmgr.CKTScript, waddrmgr.CKTPublic} {
 		if other == kt {
